@@ -196,6 +196,77 @@ PROPS = {
     },
 }
 
+# ---- bounded TLA+ models (exhaustive TLC runs). expect_violation: negative self-tests that TLC must refute.
+def M(name, module, cfg, cfg_thorough=None, workers=6, **kw):
+    d = {"name": name, "module": module, "cfg": cfg, "workers": workers}
+    if cfg_thorough:
+        d["cfg_thorough"] = cfg_thorough
+    d.update(kw)
+    return d
+
+MODELS = {
+    "ExactQ": M("ExactQ", "MC_ExactQ.tla", "MC_ExactQ_quick.cfg", "MC_ExactQ.cfg", workers=8),
+    "Linear": M("LinearTheorems", "LinearTheorems.tla", "MC_Linear.cfg", "MC_Linear_thorough.cfg", workers=2),
+    "Bilinear": M("BilinearTheorems", "MC_Bilinear.tla", "MC_Bilinear.cfg", workers=2),
+    "SplineAlgo": M("SplineAlgo", "SplineAlgo.tla", "MC_SplineAlgo.cfg", "MC_SplineAlgo_thorough.cfg", workers=6),
+    "SplineAlgoNeg": M("SplineAlgo-as-found-D1", "SplineAlgo.tla", "MC_SplineAlgoNeg.cfg", workers=4, expect_violation=True),
+    "SplineTheorems": M("SplineTheorems", "SplineTheorems.tla", "MC_SplineTheorems.cfg", workers=2),
+    "NdInterp": M("NdInterp", "NdInterp.tla", "MC_NdInterp.cfg", "MC_NdInterp_thorough.cfg", workers=8),
+    "NdInterpNeg": M("NdInterp-with-shared-hint", "NdInterp.tla", "MC_NdInterpNeg.cfg", workers=8, expect_violation=True, thorough_only=True),
+    "Monotone": M("Monotone", "Monotone.tla", "MC_Monotone.cfg", "MC_Monotone_thorough.cfg"),
+    "MonotoneNaN": M("Monotone-with-NaN", "Monotone.tla", "MC_MonotoneNaN.cfg"),
+    "MonotoneQ": M("Monotone-quotient-all-lengths", "MonotoneQ.tla", "MC_MonotoneQ.cfg", workers=2),
+    "Lookup": M("Lookup", "Lookup.tla", "MC_Lookup.cfg", "MC_Lookup_thorough.cfg", workers=8),
+    "LookupSmall": M("Lookup-binding-and-liveness", "Lookup.tla", "MC_LookupSmall.cfg", workers=4),
+    "LookupNeg": M("Lookup-swapped-hit-test", "Lookup.tla", "MC_LookupNeg.cfg", workers=2, expect_violation=True),
+    "Builder": M("Builder", "Builder.tla", "MC_Builder.cfg", workers=4),
+    "BuilderNeg": M("Builder-as-found-D2", "Builder.tla", "MC_BuilderNeg.cfg", workers=2, expect_violation=True),
+    "Builder2": M("Builder2", "Builder2.tla", "MC_Builder2.cfg", workers=6),
+    "Builder2Neg": M("Builder2-as-found-D2", "Builder2.tla", "MC_Builder2Neg.cfg", workers=2, expect_violation=True),
+    "DimTypes": M("DimTypes", "DimTypes.tla", "MC_DimTypes.cfg", workers=2),
+    "DimTypesNeg": M("DimTypes-widened-guard", "DimTypes.tla", "MC_DimTypesNeg.cfg", workers=2, expect_violation=True),
+    "Buffers": M("Buffers", "Buffers.tla", "MC_Buffers.cfg", "MC_Buffers_thorough.cfg", workers=6),
+    "BuffersNegShape": M("Buffers-as-found-D4", "Buffers.tla", "MC_BuffersNeg.cfg", workers=2, expect_violation=True),
+    "BuffersNegLayout": M("Buffers-as-found-D3", "Buffers.tla", "MC_BuffersNeg2.cfg", workers=2, expect_violation=True),
+}
+
+GENS = {
+    "Monotone": {"name": "Gen_Monotone", "module": "Gen_Monotone.tla", "cfg": "Gen_Monotone.cfg", "cfg_thorough": "Gen_Monotone_thorough.cfg", "scenario": "mono"},
+    "Lookup": {"name": "Gen_Lookup", "module": "Gen_Lookup.tla", "cfg": "Gen_Lookup.cfg", "cfg_thorough": "Gen_Lookup_thorough.cfg", "scenario": "lower"},
+}
+
+PROP_MODELS = {
+    "C01": ["ExactQ", "Linear"],
+    "C02": ["ExactQ", "SplineAlgo"],
+    "C03": ["SplineAlgo", "SplineAlgoNeg"],
+    "C04": ["Bilinear"],
+    "C05": ["NdInterp"],
+    "C06": ["Linear", "Bilinear", "SplineAlgo"],
+    "C07": ["SplineTheorems"],
+    "C08": ["SplineAlgo"],
+    "C09": ["Buffers", "DimTypes", "NdInterp"],
+    "C10": ["Builder", "Builder2", "BuilderNeg", "Builder2Neg"],
+    "C11": ["Lookup", "LookupSmall", "LookupNeg"],
+    "C12": ["Monotone", "MonotoneNaN", "MonotoneQ"],
+    "C13": ["Buffers", "BuffersNegLayout"],
+    "C14": ["Buffers", "BuffersNegShape"],
+    "C15": ["Linear", "Bilinear", "SplineTheorems"],
+    "C16": ["SplineTheorems", "Linear", "Bilinear"],
+    "C17": ["NdInterp", "NdInterpNeg"],
+    "C18": ["Builder", "Builder2"],
+    "C19": ["DimTypes", "DimTypesNeg"],
+    "C20": ["Linear", "Bilinear"],
+}
+PROP_GENS = {"C12": ["Monotone"], "C11": ["Lookup"]}
+
+for _p, _ms in PROP_MODELS.items():
+    PROPS[_p]["mc"] = [MODELS[m] for m in _ms]
+for _p, _gs in PROP_GENS.items():
+    PROPS[_p]["gen"] = [GENS[g] for g in _gs]
+# the generated cases replace the harness-local enumeration of these scenarios
+PROPS["C12"]["scenarios"] = []
+PROPS["C11"]["scenarios"] = []
+
 # properties not (yet) claimed, with the reason
 NOT_APPLICABLE = {
 }
